@@ -312,6 +312,75 @@ func genFilterPair(r *rand.Rand, id int) (pr.History, pr.History) {
 	return a, b
 }
 
+// DrvRec (C19): messages written by the REAL out port as text lines into the stand-in helper and read back by the REAL
+// in port: the lines verbatim, and what the in port's listener received.
+type DrvRec struct {
+	Ev    string  `json:"ev"`
+	ID    int     `json:"id"`
+	Msgs  []hx.B  `json:"msgs"`
+	Lines []hx.B  `json:"lines"` // one entry per line, characters incl. the terminator
+	Got   []hx.B  `json:"got"`
+	GotTs []int32 `json:"gotts"`
+	Pan   string  `json:"pan"`
+}
+
+func runDrv(rec *DrvRec) {
+	rec.Ev, rec.Lines, rec.Got, rec.GotTs = "drv", []hx.B{}, []hx.B{}, []int32{}
+	lf := os.Getenv("VERIF_LINES")
+	os.Remove(lf)
+	m := newM()
+	var mu sync.Mutex
+	done := make(chan struct{})
+	go func() {
+		defer close(done)
+		rec.Pan = hx.Catch(func() {
+			if err := m.out.Open(); err != nil {
+				panic(err)
+			}
+			if err := m.in.Open(); err != nil {
+				panic(err)
+			}
+			stop, err := m.in.Listen(func(b []byte, ts int32) {
+				mu.Lock()
+				rec.Got = append(rec.Got, append(hx.B{}, b...))
+				rec.GotTs = append(rec.GotTs, ts)
+				mu.Unlock()
+			}, drivers.ListenConfig{SysEx: true, ActiveSense: true, TimeCode: true})
+			if err != nil {
+				panic(err)
+			}
+			m.settle()
+			for _, b := range rec.Msgs {
+				if err := m.out.Send(b); err != nil {
+					panic(err)
+				}
+				atomic.AddInt64(&m.sentOK, 1)
+			}
+			m.settle()
+			stop()
+			m.in.Close()
+			m.out.Close()
+		})
+	}()
+	select {
+	case <-done:
+	case <-time.After(30 * time.Second):
+		rec.Pan = "timeout"
+	}
+	if b, err := os.ReadFile(lf); err == nil {
+		start := 0
+		for i, c := range b {
+			if c == '\n' {
+				rec.Lines = append(rec.Lines, append(hx.B{}, b[start:i+1]...))
+				start = i + 1
+			}
+		}
+		if start < len(b) {
+			rec.Lines = append(rec.Lines, append(hx.B{}, b[start:]...))
+		}
+	}
+}
+
 func runOne(h *pr.History, w *hx.Writer) bool {
 	m := newM()
 	ok := pr.Run(m, h)
@@ -357,6 +426,40 @@ func main() {
 				os.Exit(0)
 			}
 		}
+	case "lines":
+		r := rand.New(rand.NewSource(*seed))
+		for i := 0; i < *n; i++ {
+			rec := &DrvRec{ID: i}
+			for k := 0; k < 1+r.Intn(12); k++ {
+				ln := 1 + r.Intn(6)
+				if r.Intn(4) == 0 {
+					ln = 1 + r.Intn(2000)
+				}
+				b := make(hx.B, ln)
+				for j := range b {
+					b[j] = byte(r.Intn(256))
+					if r.Intn(5) == 0 {
+						b[j] = []byte{0x00, 0x0A, 0x0F, 0x10, 0x7F, 0x80, 0xF0, 0xF7, 0xFF}[r.Intn(9)]
+					}
+				}
+				rec.Msgs = append(rec.Msgs, b)
+			}
+			runDrv(rec)
+			w.Put(rec)
+			if rec.Pan == "timeout" {
+				w.Close()
+				os.Exit(0)
+			}
+		}
+	case "lines-rerun":
+		hx.ReadLines(*in, func(l []byte) {
+			var rec DrvRec
+			if err := json.Unmarshal(l, &rec); err != nil {
+				hx.Die(err)
+			}
+			runDrv(&rec)
+			w.Put(&rec)
+		})
 	case "filter":
 		r := rand.New(rand.NewSource(*seed))
 		for i := 0; i < *n; i++ {
